@@ -149,9 +149,24 @@ def gen_scenario(ctx, k):
     fi = 0
     probe = ['bus clear'] + cfggen.bus_lines(cfgA, nodesA) + ['bus brackets 1', 'debug 0', 'mark probe', f'start {dA} {fi}', 'quiesce', 'snap p0'] + \
         probe_steps(ctx.seed * 1000 + k, cfgA, nodesA) + ['flush', 'quiesce', 'snap p1', 'stop', 'mark probe_end']
-    sc.add(*probe)
+    # a second probe in low-level debug mode: zero-response messages of all sizes to three nodes, flushed at scripted points only - the BYTES
+    # written (packet boundaries, sequence numbers) must equal those of the same session in a fresh process
+    import random
+    from .. import gen, spec_lowlevel as S
+    r3 = random.Random(ctx.seed * 7919 + k)
+    dprobe = ['bus clear', 'bus mode answer', 'bus node 0.0.0 80000d99000001', 'bus brackets 1', 'debug 1', 'mark dprobe', 'start @null 0']
+    zr = gen.zero_response_names()
+    for i in range(r3.randrange(20, 60)):
+        name, ad2, a, _data = gen.random_call(r3, r3.choice([(0, 0, 0), (0, 0, 0), (5, 0, 0), (5, 6, 0)]), names=zr, hot=0.6)
+        dprobe.append(call(name, *S.tokens(name, ad2, a)))
+        if r3.random() < 0.1:
+            dprobe.append('flush')
+    dprobe += ['flush', 'quiesce', 'stop', 'debug 0', 'mark dprobe_end']
+    order = [dprobe, probe] if k % 2 else [probe, dprobe]
     fresh = Scn(seed=ctx.seed * 83 + k, watchdog=300000)
-    fresh.add(*probe)
+    for pr in order:
+        sc.add(*pr)
+        fresh.add(*pr)
     return sc.text(), fresh.text(), cfgA, nodesA, sessions, mode
 
 def probe_view(r):
@@ -361,6 +376,21 @@ def evaluate(ctx, r, rf, cfg, nodes, sessions, mode, meta):
     if pv is None or pf is None:
         ctx.inconclusive.append('probe markers missing')
         return
+    def dview(res):
+        ev_ = res.events
+        a = next((i for i, e in enumerate(ev_) if e.get('e') == 'mark' and e.get('m') == 'dprobe'), None)
+        b = next((i for i, e in enumerate(ev_) if e.get('e') == 'mark' and e.get('m') == 'dprobe_end'), None)
+        return None if a is None or b is None else [e['hex'] for e in ev_[a:b] if e.get('e') == 'tx']
+    dv, df = dview(r), dview(rf)
+    if dv is None or df is None:
+        ctx.inconclusive.append('debug probe markers missing')
+        return
+    if dv != df:
+        kx = next((i for i in range(min(len(dv), len(df))) if dv[i] != df[i]), min(len(dv), len(df)))
+        ctx.violation('session-differs', 'debug-bytes', f'low-level debug session after {[k_ for k_, _e, _f in sessions]}: write #{kx} is {len(dv[kx]) // 2 if kx < len(dv) else None} bytes '
+                      f'{(dv[kx][:40] + "...") if kx < len(dv) else None}, in a fresh process {len(df[kx]) // 2 if kx < len(df) else None} bytes {(df[kx][:40] + "...") if kx < len(df) else None}', r.scenario, r.flavour, meta)
+        return
+    ctx.count('debug_probe_writes_compared', len(dv))
     if pv[2] != pf[2]:
         ctx.violation('session-differs', 'return-values', f'probe session as session {len(sessions) + 1}: return values {pv[2][:4]} vs fresh process {pf[2][:4]}', r.scenario, r.flavour, meta)
         return
